@@ -15,7 +15,7 @@ NOTE = ("Trusted base: z3 5.1; the proxy values and the environment shims listed
 
 CLAIMED = {
     'C01': ('bytes->object->bytes->object->bytes generations of table codecs on symbolic bytes (hmtx, loca, glyf simple glyphs and components, kern, Coverage/ClassDef through the real OTTableReader/Writer, CFF INDEX header arithmetic); raw pass-through of untouched tables through TTFont.save incl. WOFF with a stubbed compressor', '3/C01 and section 8'),
-    'C02': ('object->bytes->object round trips of hmtx, glyf coordinates (3 packers) and components, loca, kern, gvar tuple stores and packed points, cmap formats 2/4/6/12/13 with symbolic glyph ids, GSUB SingleSubst, Coverage, ClassDef and the COLR ClipList under a symbolic glyph-id permutation, on symbolic content, cross-checked by readers written from the OpenType spec inside the harness', '3/C02 and section 8'),
+    'C02': ('object->bytes->object round trips of hmtx, glyf coordinates (3 packers) and components, loca, kern, gvar tuple stores and packed points, cmap formats 2/4/6/12/13 with symbolic glyph ids and format 14 with symbolic base characters, GSUB SingleSubst, Coverage, ClassDef and the COLR ClipList under a symbolic glyph-id permutation, on symbolic content, cross-checked by readers written from the OpenType spec inside the harness', '3/C02 and section 8'),
     'C04': ('container invariants (directory order, offsets, padding, checksums incl. whole-file 0xB1B0AFBA, search fields) of files written by SFNTWriter/TTFont.save incl. WOFF for symbolic table contents; glyph bounding boxes = otRound of true min/max, composite boxes over symbolic component points and offsets; WOFF2 point triplets vs the spec table; hhea/maxp/head derived fields vs the OpenType definitions', '3/C04 and section 8'),
     'C05': ('Type 2 charstring interpreter (38 operator forms, hints, width) vs an in-harness TN5177 interpreter; composite glyph assembly; normalisation, avar map and tent scalars; inferred gvar deltas; on-the-fly glyph instances (gvar + IUP) vs spec formulas, on symbolic reals', '3/C05 and section 8'),
     'C06': ('subtable splitting, overflow resolution and GPOS compaction preserve the pair-positioning lookup result for every glyph pair and all symbolic values; OTTableWriter offset packing with symbolic sizes raises OTLOffsetOverflowError exactly when a 16-bit offset does not fit; GPOS compile->decompile', '3/C06 and section 8'),
